@@ -66,6 +66,16 @@ Fixpoint strip_trailing_zeros (ds : list N) : list N :=
 
 Definition digit_vals (s : ustring) : list N := map (fun c => c - 48) s.
 
+(* float(z) raises OverflowError when z rounds to 2^1024 or beyond (round to nearest even:
+   from 2^1024 - 2^970 on); convert2Es6Format turns that into ValueError("Invalid JSON
+   number: too large for an IEEE 754 double").  Ints between 2^53 and that bound are
+   converted with rounding, which the model does not compute (OutOfModel).          *)
+Definition float_overflows (z : Z) : bool :=
+  (2 ^ 1024 - 2 ^ 970 <=? Z.abs z)%Z.
+
+Definition int_too_big (z : Z) : jres ustring :=
+  if float_overflows z then JRaise ValueError else JRaise OutOfModel.
+
 Definition int_float_repr (z : Z) : option ustring :=
   if (z =? 0)%Z then Some [c_0; c_dot; c_0]
   else if (Z.abs z <=? 9007199254740992)%Z then
@@ -251,7 +261,7 @@ Fixpoint canon (v : jvalue) : jres ustring :=
   | JNull => JOk [110; 117; 108; 108]
   | JBool true => JOk [116; 114; 117; 101]
   | JBool false => JOk [102; 97; 108; 115; 101]
-  | JInt z => match int_float_repr z with Some r => convert2es6 r | None => JRaise OutOfModel end
+  | JInt z => match int_float_repr z with Some r => convert2es6 r | None => int_too_big z end
   | JFloat r => convert2es6 r
   | JStr s => JOk (encode_string s)
   | JArr l =>
